@@ -371,8 +371,52 @@ def run_xdr_job(job, scratch):
     return r
 
 
+def run_mbt_job(job, scratch):
+    """Model-based testing: TLC generates plans from NfsMC.tla (exhaustively to a depth, or by simulation), the harness
+    replays a slice of them on the real server, NfsTrace validates the recorded runs."""
+    d = tempfile.mkdtemp(prefix="mbt-", dir=scratch)
+    for f in glob.glob(os.path.join(SPEC, "*.tla")) + glob.glob(os.path.join(SPEC, "*.cfg")):
+        shutil.copy(f, d)
+    cmd = ["java", "-XX:+UseParallelGC", "-Xss512m", "-Xmx8g", "-cp", JAR, "tlc2.TLC", "-metadir", os.path.join(d, "meta")]
+    if job["mode"] == "sim":
+        cmd += ["-workers", "1", "-simulate", "num=%d" % job["num"], "-depth", "12", "-seed", str(job["seed"]), "-config", "NfsMC_sim.cfg"]
+    else:
+        cmd += ["-workers", "8", "-config", "NfsMC_gen.cfg"]
+    t0 = time.time()
+    p = subprocess.run(cmd + ["NfsMC.tla"], cwd=d, capture_output=True, text=True, timeout=3000)
+    if "rror" in p.stdout and "No error" not in p.stdout and job["mode"] != "sim":
+        raise Infra("plan generation failed:\n" + p.stdout[-3000:])
+    plans = os.path.join(scratch, job["name"] + ".plans")
+    n = 0
+    seen = set()
+    with open(plans, "w") as f:
+        for ln in p.stdout.splitlines():
+            ln = ln.strip()
+            if ln.startswith('"PLAN ') and ln not in seen:
+                seen.add(ln)
+                f.write(json.loads(ln) + "\n")
+                n += 1
+    shutil.rmtree(d, ignore_errors=True)
+    if n == 0:
+        raise Infra("no plans generated:\n" + p.stdout[-2000:])
+    m = re.search(r"(\d+) states generated, (\d+) distinct states found", p.stdout)
+    tgen = time.time() - t0
+    r = run_job({"name": job["name"], "module": "NfsTrace.tla", "cfg": "NfsTrace.cfg", "driver_timeout": 3000, "tlc_timeout": 3000,
+                 "driver": ["plans", "-spec", plans, "-parts", str(job["parts"]), "-part", str(job["part"]), "-maxprobe", str(job.get("max", 0))]},
+                scratch)
+    os.remove(plans)
+    r["plans_generated"] = n
+    r["tdrv"] += tgen
+    if m:
+        r["states"] += int(m.group(2))
+        r["transitions"] += int(m.group(1))
+    return r
+
+
 def run_job(job, scratch):
     """job: {name, driver: [args...], module, cfg}. Returns result dict."""
+    if job.get("kind") == "mbt":
+        return run_mbt_job(job, scratch)
     if job.get("kind") == "xdr":
         return run_xdr_job(job, scratch)
     if job.get("kind") == "lock":
@@ -522,6 +566,15 @@ def plan(prop, tier, seed, known):
         for i in range(n):
             jobs.append(seq_job("seq%d" % i, seed * 100 + i, "mix,data,names,dirs", 4 if q else 8, 250 if q else 400, av))
         jobs.append(probe_job(prop, av))
+        # model-based tests: one real run per transition of the bounded NfsMC graph (a slice in quick) and long simulated walks
+        parts = 16
+        for k in ([seed % parts] if q else range(parts)):
+            jobs.append({"name": "mbt%d" % k, "kind": "mbt", "mode": "bfs", "parts": parts, "part": k})
+        for k in range(1 if q else 8):
+            jobs.append({"name": "mbtsim%d" % k, "kind": "mbt", "mode": "sim", "num": 150 if q else 400, "seed": seed * 10 + k, "parts": 1, "part": 0,
+                         "max": 300 if q else 2000})
+        if not q:
+            jobs.append({"name": "NfsMC", "kind": "mc", "module": "NfsMC.tla", "cfg": "NfsMC.cfg", "workers": 16, "tlc_timeout": 3000, "xmx": "16g"})
     elif prop == "C08":
         n = 4 if q else 32
         for i in range(n):
@@ -736,6 +789,7 @@ def run_check(prop, tier, seed):
             "exhaustive_models": [{"name": r["name"], "distinct_states": r["states"], "proof": bool(r.get("proof"))} for r in res if r.get("mc")],
             "jobs": [{"name": r["name"], "segments": r["segments"], "calls": r["calls"], "driver_s": round(r["tdrv"], 2),
                       "tlc_s": round(r["ttlc"], 2)} for r in res],
+            "model_based_plans_generated": sum(r.get("plans_generated", 0) for r in res),
             "predicted_deadlocks": sum(r.get("predicted_deadlocks", 0) for r in res),
             "predicted_deadlocks_involving_known_finding": sum(r.get("predicted_involving_apply", 0) for r in res),
             "predicted_deadlocks_not_reproduced": sum(r.get("predicted_unconfirmed", 0) for r in res),
